@@ -86,7 +86,9 @@ func c10SignedTx(p *Plan, o ExecOpts, rs []*RunResult, ev *Evidence) ([]Violatio
 	cfg := world.Config{Balances: stdBalances(), Params: params("2bcoin", "1bcoin", 1)}
 	fixedW := Op{Kind: "create_fixed", Signer: "auc1", StartPrice: "2", Sell: "10acoin", PayDenom: "bcoin", StartK: 1, EndK: 2}
 	batchO := Op{Kind: "create_batch", Signer: "auc1", StartPrice: "1", MinPrice: "0.5", Sell: "10acoin", PayDenom: "bcoin", StartK: 0, EndK: 2, MaxExt: 1, Rate: "0.5"}
-	msg := func(aid uint64, who, max string) Op { return Op{Kind: "msg_add_allowed", AID: aid, Bidder: who, Max: max} }
+	msg := func(aid uint64, who, max string) Op {
+		return Op{Kind: "msg_add_allowed", AID: aid, Bidder: who, Max: max}
+	}
 	hists := [][]Op{
 		{fixedW, msg(0, "bid1", "5"), {Kind: "block", K: 1}, msg(0, "bid1", "5"), msg(0, "out1", "1"), {Kind: "place", Signer: "bid1", AID: 0, BidType: 1, Price: "2", Denom: "bcoin", Amt: "4"}, {Kind: "block", K: 2}},
 		{batchO, {Kind: "add_allowed", AID: 0, Bidder: "bid1", Max: "4"}, msg(0, "bid1", "10"), msg(0, "bid2", "10"),
